@@ -32,6 +32,17 @@ or flat), `Legacy.emitOld` the typed 0.0.39 document for a native document (`Mod
   `add_asset`; `old_loader_swapped_fields_counterexample` shows that `notSwapped` is needed (the Python accepts
   what `loadOld` rejects); `old_loader_unknown_entry_point_unmodelled` marks the one place where a result of the
   translation says nothing about the Python (`(None, steps)` tuples).
+* securiCAD: `scad_loader_refines` / `scad_loader_error_class` (translated `load_model_from_scad_archive` = `Legacy.loadScad`,
+  outcome by outcome, with the exception class); **`scad_loader_agrees_with_native`** (the property): for every native
+  model state `s` the archive can express, the translated loader on `emitScad s` and the native loader on `toDoc s` both
+  return a model, with the same assets (`scad_loader_assets_agree`), the same pairwise links (`scad_loader_links_agree`)
+  and the same attacker entry points (`scad_loader_entry_points_agree`); `…_reachable` after any history.  The
+  agreement lemmas of the hand model are re-proved from any start state without live objects
+  (`Py/TieLegacyScadEmit.lean`), which is how the start state `abs (emptyModel path)` of the tie meets the `{}` of
+  `Props/C18.lean`; observations are compared through the views (`ScadAgrees`, `Py/TieLegacyScadAgree.lean`).
+* The image conditions: `old_wf_of_saved_model`, `scad_objWf_of_saved_model` (`OldWf`, `DefsOkOf`, `NoExtras`, `ObjWf` hold
+  for everything written for a coherent model), `old_loader_agrees_on_saved_model` (0.0.39 with no document hypothesis
+  left), `scad_emit_empty_defense_counterexample` (`NoEmptyDefName` is needed).
 * Start state: the hand-written loaders are run from the state the empty heap stands for
   (`loadOldFrom … (abs (emptyModel name))`, `fromDocFrom …`), which differs from `({} : MS.St)` only in store cells
   that are never allocated (`init_lists`); `loadOldFrom L ok {} = loadOld L ok`, `fromDocFrom L ok {} = fromDoc L ok` by `rfl`.
@@ -514,6 +525,29 @@ theorem scad_loader_agrees_with_native (files : Files) {env : ModelEnv} (hE : Eq
     (linksResolve_of_distinct hd hs.valid) hs.defKeys hs.attNames
   exact ⟨m, sn, hm, hn1, hi,
     scad_loader_agrees files hE fac lg nodes path s hF hd hnodes hlg hs hfile hfuel m hm sn hn1⟩
+
+/-- **C18, securiCAD, after any history.**  For the state reached by any sequence of model operations from the empty model
+(coherent and valid by C05 / C06; `add_asset` given no defense twice), what remains to be assumed is what the format forces:
+distinct attacker ids, `ScadAssetsOk`, values in range, no defense / field / step name the format cannot write, and a
+language whose (unordered) field-name pairs identify the declaration. -/
+theorem scad_loader_agrees_with_native_reachable (files : Files) {env : ModelEnv} (hE : EqId env) (fac : Factory)
+    (lg : LangGraphView) (nodes : List AssocDecl) (path : String) (ops : List MS.Op)
+    (hF : FieldsDistinct fac.L) (hd : ClassNamesDistinct fac.L) (hnodes : ∀ a ∈ nodes, a ∈ fac.L.assocs)
+    (hfi : FieldsIdentify fac.L nodes) (hlg : LgSpec fac.L nodes lg)
+    (hops : ∀ op ∈ ops, OpDefKeysDistinct op) (hatt : AttIdsDistinct (ops.foldl (MS.applyOp fac.L) {}))
+    (ha : ScadAssetsOk fac.L (fun _ => true) (ops.foldl (MS.applyOp fac.L) {}))
+    (hfl : FloatsOk fac (ops.foldl (MS.applyOp fac.L) {})) (hne : NoEmptyDefName fac.L (ops.foldl (MS.applyOp fac.L) {}))
+    (hfs : NoFirstSteps (ops.foldl (MS.applyOp fac.L) {})) (hdot : StepsNoDot (ops.foldl (MS.applyOp fac.L) {}))
+    (hfile : files.eom path = .ok (emitScad fac.L (ops.foldl (MS.applyOp fac.L) {})))
+    (hfuel : (ops.foldl (MS.applyOp fac.L) {}).assets.length + (ops.foldl (MS.applyOp fac.L) {}).attackers.length
+      ≤ env.whileFuel) :
+    ∃ m sn, securicad_load_model_from_scad_archive files env path lg fac = .ok (some m) ∧
+      fromDoc fac.L (fun _ => true) (toDoc fac.L (ops.foldl (MS.applyOp fac.L) {})) = .ok sn ∧ MS.Inv (abs m) ∧
+      ScadAgrees fac.L (abs m) sn :=
+  scad_loader_agrees_with_native files hE fac lg nodes path _ hF hd hnodes hlg
+    ⟨C05.reachable_inv _ _, C06.reachable_valid _ _, C07.reachable_defKeysDistinct _ _ hops, hatt,
+     C07.reachable_attNamesNonempty _ _, ha, hfl, hne,
+     C18.pairs_resolve_of_fields _ _ _ hd hfi (C06.reachable_valid _ _) (C05.reachable_inv _ _), hfs, hdot⟩ hfile hfuel
 
 /-! ### securiCAD: non-vacuity, and the hypothesis `NoEmptyDefName` is needed -/
 
